@@ -146,23 +146,46 @@ def p2(rng):
     return rng.choice([2.0, 4.0, -2.0, 0.5, 1.0, -0.25, 8, 1, -1])
 
 
-def const_expr(rng, depth=1):
-    """a constant sub-expression that is not a single Constant node"""
-    from optyx.core.expressions import Constant, BinaryOp
+def const_expr(rng, depth=1, P=None):
+    """a constant-valued *compound* sub-expression (never a single Constant node): arithmetic on Constant nodes,
+    powers, negations, quotients, `k * 0`, `e ** 0` of an arbitrary (variable-containing) base, and — rarer,
+    because today's classifier rejects them as non-polynomial — functions of constants, nested"""
+    from optyx.core.expressions import Constant, BinaryOp, UnaryOp
 
     a, b = Constant(dy(rng)), dy(rng)
     r = rng.random()
-    if r < 0.35:
+    if depth > 0 and r < 0.18:
+        k1, k2 = const_expr(rng, depth - 1, P), const_expr(rng, depth - 1, P)
+        return rng.choice([lambda: k1 + k2, lambda: k1 - k2, lambda: k1 * k2, lambda: -k1, lambda: k1 * 0,
+                           lambda: BinaryOp(k1, Constant(rng.choice([0, 1, 2])), "**"), lambda: k1 / Constant(p2(rng))])()
+    if r < 0.40:
         return a + b
-    if r < 0.6:
+    if r < 0.55:
         return a - b
-    if r < 0.75:
+    if r < 0.65:
         return a * Constant(dy(rng))
-    if r < 0.85:
+    if r < 0.72:
         return BinaryOp(Constant(rng.choice([2.0, -1.0, 0.5, 3])), Constant(rng.choice([0, 1, 2, 2.0])), "**")
-    if r < 0.93:
+    if r < 0.78:
         return -a
-    return a / Constant(p2(rng))
+    if r < 0.83:
+        return a / Constant(p2(rng))
+    if r < 0.87:
+        return rng.choice([lambda: a * 0, lambda: 0 * (a + b), lambda: Constant(0.0) * a])()
+    if r < 0.93:
+        base = rng.choice(P.leaves()) if P is not None else a
+        return rng.choice([lambda: base ** 0, lambda: (base + b) ** 0, lambda: BinaryOp(2 * base - 1, Constant(0.0), "**"),
+                           lambda: (base ** 0) * b, lambda: (base ** 0) + a])()
+    # functions of constants (exact values where possible: exp(0)=1, sqrt(4)=2, abs(-2)=2, log(1)=0, cos(0)=1, sinh(0)=0)
+    f = lambda op, x: UnaryOp(x, op)
+    return rng.choice([
+        lambda: f("exp", Constant(0.0)), lambda: f("sqrt", Constant(4.0)), lambda: f("abs", Constant(-2.0)), lambda: f("log", Constant(1.0)),
+        lambda: f("cos", Constant(0)), lambda: f("exp", -f("sqrt", Constant(2.0))), lambda: f("log", f("exp", Constant(1.5)) + 1.0),
+        lambda: f("exp", Constant(0.05) * 2), lambda: f("exp", -Constant(0.05)), lambda: f("sqrt", f("exp", Constant(1.0))),
+        lambda: f("exp", (rng.choice(P.leaves()) if P is not None else a) ** 0), lambda: f("sqrt", a * a + 1.0),
+        lambda: f("sin", Constant(0.5)) * 2, lambda: f("tanh", Constant(1.0) - 0.5) + b, lambda: f("abs", a - 3.0),
+        lambda: f("sinh", Constant(0.0)) + a, lambda: f("sqrt", Constant(0.25)) * f("sqrt", Constant(16.0)),
+    ])()
 
 
 def rand_lin(rng, P, depth):
@@ -202,8 +225,9 @@ def _rand_lin_fresh(rng, P, depth):
         return rng.choice([lambda: dy(rng) * sub(), lambda: sub() * dy(rng), lambda: Constant(dy(rng)) * sub(),
                            lambda: sub() * Constant(dy(rng))])()
     if r < 0.42:
-        k = const_expr(rng)
-        return BinaryOp(k, sub(), "*") if rng.random() < 0.5 else BinaryOp(sub(), k, "*")
+        k = const_expr(rng, 1, P)
+        return rng.choice([lambda: BinaryOp(k, sub(), "*"), lambda: BinaryOp(sub(), k, "*"), lambda: sub() + k, lambda: k - sub(),
+                           lambda: sub() * k + k, lambda: -(k * sub())])()
     if r < 0.47:
         return sub() / rng.choice([p2(rng), Constant(p2(rng))])
     if r < 0.51:
@@ -213,7 +237,7 @@ def _rand_lin_fresh(rng, P, depth):
     if r < 0.58:
         return BinaryOp(sub(), Constant(rng.choice([0, 0.0])), "**")
     if r < 0.60:
-        return BinaryOp(const_expr(rng), Constant(rng.choice([2, 3, 2.0])), "**")
+        return BinaryOp(const_expr(rng, 1, P), Constant(rng.choice([2, 3, 2.0])), "**")
     if r < 0.63:
         return sub() + dy(rng)
     if r < 0.66:
@@ -232,6 +256,10 @@ def _rand_lin_fresh(rng, P, depth):
     if r < 0.89:
         return cs @ (v - rng.choice([w for w in P.views() if len(w) == k]))
     if r < 0.92:
+        if rng.random() < 0.35:     # constant-valued compound elements / addends inside the vector expression
+            return V.LinearCombination(cs, V.VectorExpression([
+                rng.choice([lambda: const_expr(rng, 1, P), lambda: rand_lin(rng, P, depth - 2) + const_expr(rng, 0, P),
+                            lambda: const_expr(rng, 0, P) * rng.choice(P.leaves())])() for _ in range(k)]))
         return V.LinearCombination(cs, V.VectorExpression([rand_lin(rng, P, depth - 2) for _ in range(k)]))
     if r < 0.95:
         A = np.array([[dy(rng) for _ in range(k)] for _ in range(rng.randint(1, 3))], dtype=float)
@@ -311,7 +339,8 @@ def rand_problem(rng, style=None):
         prob.maximize(obj)
     for _ in range(rng.randint(0, 5)):
         lhs = rand_lin(rng, P, rng.randint(1, 3))
-        rhs = rng.choice([lambda: dy(rng), lambda: dy(rng), lambda: rand_lin(rng, P, 1), lambda: Constant_(dy(rng))])()
+        rhs = rng.choice([lambda: dy(rng), lambda: dy(rng), lambda: rand_lin(rng, P, 1), lambda: Constant_(dy(rng)),
+                          lambda: const_expr(rng, 1, P)])()
         if rng.random() < 0.15:
             lhs, rhs = rand_two_vec(rng, P)          # `a @ x <= b @ x[::-1]` normalises to node − node
             if rng.random() < 0.3:
@@ -502,6 +531,53 @@ def deep_problems(rng, thorough):
     return out
 
 
+def const_fold_problems(rng):
+    """every kind of constant-valued compound sub-expression × every place a number can stand (coefficient factor on
+    either side, additive term, right-hand side, element / addend inside a vector expression, power base, divisor).
+    Whether the tree under test accepts the model as an LP is its business; if it does, the oracle must agree."""
+    from optyx import Problem, Variable, VectorVariable
+    from optyx.core.expressions import BinaryOp, Constant, UnaryOp
+    from optyx.core import vectors as V
+
+    f = lambda op, a: UnaryOp(a, op)
+    x = VectorVariable("x", 2, lb=0, ub=5)
+    y = Variable("y", lb=-1.0)
+    kinds = [
+        ("2+3", lambda: Constant(2) + 3), ("2*3-1", lambda: Constant(2) * 3 - 1), ("(2+1)**2", lambda: BinaryOp(Constant(2) + 1, Constant(2), "**")),
+        ("-(K)", lambda: -Constant(1.5)), ("K/4", lambda: Constant(3.0) / Constant(4.0)), ("K*0", lambda: Constant(3.0) * 0),
+        ("0*(K+1)", lambda: 0 * (Constant(3.0) + 1)), ("y**0", lambda: y ** 0), ("(x0+y)**0", lambda: (x[0] + y) ** 0), ("(y**0)*3", lambda: (y ** 0) * 3),
+        ("((K+1)*(K-1))/2", lambda: ((Constant(3) + 1) * (Constant(3) - 1)) / 2), ("K**0", lambda: Constant(5.0) ** 0),
+        ("exp(0)", lambda: f("exp", Constant(0.0))), ("sqrt(4)", lambda: f("sqrt", Constant(4.0))), ("abs(-2)", lambda: f("abs", Constant(-2.0))),
+        ("log(1)", lambda: f("log", Constant(1.0))), ("exp(-0.05)", lambda: f("exp", Constant(-0.05))), ("sqrt(2)", lambda: f("sqrt", Constant(2.0))),
+        ("exp(-sqrt(2))", lambda: f("exp", -f("sqrt", Constant(2.0)))), ("log(exp(1.5)+1)", lambda: f("log", f("exp", Constant(1.5)) + 1.0)),
+        ("exp(K*2)", lambda: f("exp", Constant(0.05) * 2)), ("exp(-K)", lambda: f("exp", -Constant(0.05))), ("sqrt(exp(1))", lambda: f("sqrt", f("exp", Constant(1.0)))),
+        ("exp(y**0)", lambda: f("exp", y ** 0)), ("sqrt(K*K+1)", lambda: f("sqrt", Constant(2.0) * Constant(2.0) + 1.0)), ("cos(0)*2", lambda: f("cos", Constant(0)) * 2),
+        ("sinh(0)+1", lambda: f("sinh", Constant(0.0)) + 1), ("tanh(K-K)", lambda: f("tanh", Constant(1.0) - 1.0)), ("abs(K-3)", lambda: f("abs", Constant(1.0) - 3.0)),
+        ("exp(0)**2", lambda: BinaryOp(f("exp", Constant(0.0)), Constant(2), "**")), ("sqrt(4)*sqrt(16)", lambda: f("sqrt", Constant(4.0)) * f("sqrt", Constant(16.0))),
+    ]
+    c = np.array([1.0, -2.0])
+    places = [
+        ("k*x", lambda k: k() * x[0] + y), ("x*k", lambda k: x[1] * k() - y), ("x+k", lambda k: x.sum() + k()), ("k-x", lambda k: k() - (c @ x)),
+        ("k*(x+k)", lambda k: k() * (x[0] + k())), ("lc[k*x]", lambda k: V.LinearCombination(c, V.VectorExpression([k() * x[0], x[1] + k()]))),
+        ("lc[k]", lambda k: V.LinearCombination(c, V.VectorExpression([k(), y])) + x[0]), ("k**2*x", lambda k: BinaryOp(k(), Constant(2), "**") * x[0]),
+        ("x/k", lambda k: x[0] / k() + y), ("-(k)*x/2", lambda k: -(k()) * x[1] / 2), ("(k+x)**1", lambda k: (k() + x[0]) ** 1), ("alone", lambda k: k() + 0 * y),
+    ]
+    out = []
+    for kn, k in kinds:
+        for pn, place in places:
+            for s in ("<=", ">=", "=="):
+                try:
+                    P = Problem()
+                    (P.minimize if s != ">=" else P.maximize)(place(k))
+                    lhs = place(k)
+                    P.subject_to((lhs <= k()) if s == "<=" else (lhs >= k()) if s == ">=" else lhs.eq(k()))
+                    P.subject_to(x.sum() + y <= 4)
+                except Exception:  # noqa: BLE001   (a form the API refuses to build)
+                    continue
+                out.append((f"constfold:{kn}:{pn}:{s}", P))
+    return out
+
+
 def shared_shallow_problems(rng):
     """the same compound object at several places of shallow expressions (every depth 1..4 of the sharing point)"""
     from optyx import Problem, Variable, VectorVariable
@@ -532,6 +608,37 @@ def shared_shallow_problems(rng):
 
 
 # ----------------------------------------------------------------------------- oracle on the real code
+
+
+class SkipPoint(Exception):
+    pass
+
+
+def user_value(e, pt):
+    """value of the user's expression at the rational point `pt`: ("exact", Fraction) through the Fraction
+    interpreter, else ("float", float) through the independent float interpreter (transcendental constants …)"""
+    import oracle
+
+    try:
+        return "exact", frac_eval(e, pt)
+    except DivZero:
+        raise SkipPoint("division by the literal 0")
+    except NotPoly:
+        pass
+    try:
+        with warnings.catch_warnings(), np.errstate(all="ignore"):
+            warnings.simplefilter("ignore")
+            v = float(oracle.prim(oracle.ref_eval(e, {k: float(x) for k, x in pt.items()})))
+    except (oracle.NotRegular, OverflowError, ZeroDivisionError, ValueError, AttributeError, TypeError):
+        raise SkipPoint("no regular value")
+    return "float", v
+
+
+def differs(mode, want, got):
+    if mode == "exact":
+        return want != got
+    g = float(got)
+    return abs(want - g) > 1e-9 * (1.0 + abs(want) + abs(g))
 
 
 def lp_oracle(P, lp, rng, tag):
@@ -567,31 +674,28 @@ def lp_oracle(P, lp, rng, tag):
         pt = {nm: Fraction(rng.randint(-5, 5)) for nm in names}
         xv = [pt[nm] for nm in names]
         dot = lambda row: sum((a * b for a, b in zip(row, xv)), Fraction(0))
+        # whatever the tree under test accepted as an LP must reproduce the user's expressions: exact rationals
+        # where the Fraction interpreter applies, the float interpreter (tolerance) otherwise
         try:
-            want = frac_eval(P.objective, pt)
+            mode, want = user_value(P.objective, pt)
             got = dot(c) + Fraction(float(lp.c0))
-            if want != got:
+            if differs(mode, want, got):
                 fails.append({"what": "c·x + c0 differs from the objective", "point": {k: str(v) for k, v in pt.items()},
-                              "got": str(got), "want": str(want)})
-        except DivZero:
-            pass  # (x / 0) ** 0 style: the extractor never looks below a zero exponent; NumPy evaluates it to 1
-        except NotPoly as ex:
-            fails.append({"what": f"an LP was extracted although the objective is not a linear expression ({ex})"})
+                              "got": str(got) if mode == "exact" else repr(float(got)), "want": str(want), "mode": mode})
+        except SkipPoint:
+            pass  # e.g. (x / 0) ** 0: the extractor never looks below a zero exponent; NumPy evaluates it to 1
         for kind, cons, A, b in (("ub", ub, Aub, bub), ("eq", eq, Aeq, beq)):
             for r, k in enumerate(cons):
                 try:
-                    val = frac_eval(k.expr, pt)
-                except DivZero:
-                    # (x / 0) ** 0 style: the extractor never looks below a zero exponent; NumPy evaluates it to 1
-                    continue
-                except NotPoly as ex:
-                    fails.append({"what": f"row extracted for a non-linear constraint ({ex})", "row": r, "kind": kind})
+                    mode, val = user_value(k.expr, pt)
+                except SkipPoint:
                     continue
                 want = -val if k.sense == ">=" else val
                 got = dot(A[r]) - b[r]
-                if want != got:
+                if differs(mode, want, got):
                     fails.append({"what": f"row·x − rhs differs from the user's constraint ({k.sense}, {kind} row {r})",
-                                  "point": {kk: str(v) for kk, v in pt.items()}, "got": str(got), "want": str(want)})
+                                  "point": {kk: str(v) for kk, v in pt.items()},
+                                  "got": str(got) if mode == "exact" else repr(float(got)), "want": str(want), "mode": mode})
         if fails:
             break
     return fails
@@ -767,7 +871,7 @@ def run(ctx) -> core.Report:
                            "seeded random linear problems (≤ 8 variables, ≤ 5 constraints) in every writing style; "
                            "each expression also extracted under permuted / enlarged variable orders; "
                            "non-trivial = distinct problems for which an LP was extracted")
-    problems = [(t, P) for t, P in fixed_problems(rng)] + shared_shallow_problems(rng) + deep_problems(rng, thorough)
+    problems = [(t, P) for t, P in fixed_problems(rng)] + shared_shallow_problems(rng) + const_fold_problems(rng) + deep_problems(rng, thorough)
     n_rand = 12000 if thorough else 1500
     for _ in range(n_rand):
         P, pool, style = rand_problem(rng)
@@ -878,18 +982,18 @@ def run(ctx) -> core.Report:
                     c0 = Fraction(float(A.extract_constant_term(e)))
                     cs = [Fraction(t) for t in got[4:-1].split()] if got != "(ok )" else []
                     pt = {nm: Fraction(rng.randint(-5, 5)) for nm in arg}
-                    want = frac_eval(e, pt)
+                    mode, want = user_value(e, pt)
                     have = sum((a * pt[nm] for a, nm in zip(cs, arg)), Fraction(0)) + c0
-                    if want != have and cmd == "coeffs-perm":
+                    if differs(mode, want, have) and cmd == "coeffs-perm":
                         # excluded point of shortcuts_eq_general, reached only through the stand-alone function
                         # with a variable order no Problem produces: recorded, not a violation of C05
                         k5 = "outside-invariant: shortcut fired under a permuted order (wrong coefficients)"
                         rep.histogram[k5] = rep.histogram.get(k5, 0) + 1
-                    elif want != have:
+                    elif differs(mode, want, have):
                         rep.oracle_failures.append({"what": "Σ coeffs[i]·x_i + constant differs from the expression",
                                                     "cmd": lines[li], "point": {k: str(v) for k, v in pt.items()},
                                                     "got": str(have), "want": str(want), "tag": tag})
-                except (NotPoly, DivZero, ZeroDivisionError):
+                except (SkipPoint, ZeroDivisionError):
                     pass
     return rep
 
@@ -904,7 +1008,7 @@ def kind_of_expr(e):
 def search(ctx, rep):
     """correspondence / proof broken, nothing failed yet: many more random problems, oracle only"""
     rng = core.Rng(ctx["seed"] + 15485863)
-    pool = [P for _, P in fixed_problems(rng)] + [P for _, P in shared_shallow_problems(rng)] + [P for _, P in deep_problems(rng, False)]
+    pool = [P for _, P in fixed_problems(rng)] + [P for _, P in shared_shallow_problems(rng)] + [P for _, P in const_fold_problems(rng)] + [P for _, P in deep_problems(rng, False)]
     for _ in range(15000):
         pool.append(rand_problem(rng)[0])
     for P in pool:
